@@ -453,13 +453,14 @@ def classify_report(text):
     if rest and (rest[0][1].startswith(repo + '/') or rest[0][1].startswith('/repo/')):
       out['where'] = 'repo'
       names = ['null-element'] + [short_fn(fn) for fn, path in rest if path.startswith(repo + '/') or path.startswith('/repo/')]
-  key = '|'.join(names[:3])
+  key = '|'.join(names[:2])       # the two innermost frames of the tree: the call path above them varies for one defect
   if out['kind'] == 'stack-overflow':
     # the innermost frames of a runaway recursion are arbitrary: use the functions of the cycle instead
     cyc = collections.Counter(short_fn(fn) for fn, path in frames if path.startswith(repo + '/') or path.startswith('/repo/'))
     rec = sorted(n for n, c in cyc.items() if c >= 3)[:3]
     key = '|'.join(rec or [n for n, c in cyc.most_common(1)])
   out['bucket'] = out['fingerprint'] = 'asan:%s:%s' % (out['kind'], key)
+  out['fingerprint3'] = 'asan:%s:%s' % (out['kind'], '|'.join(names[:3]))     # older, longer form (still accepted if listed)
   out['summary'] = '%s in %s' % (out['kind'], ' <- '.join(names[:4]))
   return out
 
@@ -741,7 +742,8 @@ ROOT_CAUSES = [
     (r'^escape:mju_error:Requested index in mjs_setInStringVec', 'OneMaterial passes FindKey()==-1 for an unknown layer role to mjs_setInStringVec -> mju_error outside any handler'),
     (r'^escape:exception:std::bad_optional_access.*mjXReader::Asset', 'Asset: <model> without file calls .value() on an empty optional; SpecFromXML only catches mjXError'),
     (r'^escape:', 'mju_error / C++ exception leaves the C API'),
-    (r'GetClass', 'GetClass passes user text as the printf format of mjXError'),
+    (r'GetClass|sprintf_arr\|mjXError::mjXError', 'user text is passed as the printf format of mjXError (GetClass: unknown default class name)'),
+    (r'memcpy-param-overlap:mju_copy\|mj_advance', 'sensor nsample*dim overflows int: overlapping copy in mj_advance during the compile-time test step'),
     (r'mjXReader::Custom', 'Custom: negative numeric size is passed as length to ReadAttr into double data[500]'),
     (r'heap-buffer-overflow:mjXReader::Asset', 'Asset/hfield: nrow*ncol overflows int'),
     (r'CopyPlugin', 'attach of a frame holding plugin elements (replicate count>=2 around a cable composite): stale plugin pointer'),
@@ -813,6 +815,8 @@ def handle_common(S, res, xml, origin, info=None):
           c['where'], c['summary'], c['frames'][:6], xml[:1500], res.report[-3000:]))
     if c['where'] == 'none':
       c['fingerprint'] = 'crash-unclassified:' + c['kind']
+    elif ck.known(c['fingerprint']) is None and c.get('fingerprint3') and ck.known(c['fingerprint3']) is not None:
+      c['fingerprint'] = c['fingerprint3']
     S.finding(c['fingerprint'], 'loader crashed (%s): %s' % (origin, c['summary']),
               dict(origin=origin, xml=show(xml), info=info, report=c['text'][-4000:], frames=c['frames'][:8]))
     return True
@@ -1404,6 +1408,8 @@ def part_a_collect(ck, S, slots, exe_fuzz):
       if len(data) > 65536 and c['kind'] == 'stack-overflow':
         S.inconclusive['stack-overflow-large-input'] += 1
         continue
+      if ck.known(c['fingerprint']) is None and c.get('fingerprint3') and ck.known(c['fingerprint3']) is not None:
+        c['fingerprint'] = c['fingerprint3']
       S.finding(c['fingerprint'], 'loader crashed under the fuzzer: %s' % c['summary'],
                 dict(origin='fuzz', xml=show(data), artifact=arts[:1], frames=c['frames'][:8], report=c['text'][c['text'].find('ERROR:'):][:4000]))
   if rerun[0] is not None:
